@@ -1003,10 +1003,18 @@ func (ci *cdInfo) guardOfM(b *ssa.BasicBlock, memo map[*ssa.BasicBlock]*Form, on
 		if iff == nil {
 			continue
 		}
-		a, neg := condLit(iff.Cond)
-		lit := fLit(a)
-		if neg != (d.succ == 1) {
-			lit = fNot(lit)
+		var lit *Form
+		if cb, isConst := constBool(iff.Cond); isConst {
+			lit = fFalse
+			if cb == (d.succ == 0) {
+				lit = fTrue
+			}
+		} else {
+			a, neg := condLit(iff.Cond)
+			lit = fLit(a)
+			if neg != (d.succ == 1) {
+				lit = fNot(lit)
+			}
 		}
 		alts = append(alts, fAnd(ci.guardOfM(d.b, memo, onstack), lit))
 	}
